@@ -44,6 +44,7 @@ class FieldInfo:
     default: ast.expr | None
     annotation: str
     owner: str
+    factory: ast.expr | None = None     # default_factory=<expr> of dataclasses.field / equinox.field
 
 
 @dataclass
@@ -211,13 +212,16 @@ class Program:
                 static = False
                 has_default = s.value is not None
                 default = s.value
+                factory = None
                 if s.value is not None and isinstance(s.value, ast.Call) and ast.unparse(s.value.func) in (
                         'equinox.field', 'eqx.field', 'field'):
                     kw = {k.arg: k.value for k in s.value.keywords}
                     static = isinstance(kw.get('static'), ast.Constant) and kw['static'].value is True
                     has_default = 'default' in kw or 'default_factory' in kw
                     default = kw.get('default')
-                ci.fields.append(FieldInfo(s.target.id, static, classvar, has_default, default, ann, node.name))
+                    factory = kw.get('default_factory')
+                ci.fields.append(FieldInfo(s.target.id, static, classvar, has_default, default, ann, node.name,
+                                           factory))
                 if s.value is not None and (classvar or not isinstance(s.value, ast.Call) or not static):
                     # class-level value (ClassVar constants, defaults, `operator_class: ... = None`)
                     if not (isinstance(s.value, ast.Call) and ast.unparse(s.value.func).endswith('field')):
